@@ -83,7 +83,14 @@ UNIT = dict(
     dict(id='push_null', entry='h_push_null', cls='shape-complete', unwind=5),
     dict(id='ctor', entry='h_ctor', cls='shape-complete', unwind=5),
     dict(id='delete_remaining', entry='h_delete_remaining', cls='shape-complete', unwind=5, solver=['--sat-solver', 'cadical']),
-    dict(id='dtor', entry='h_dtor', cls='shape-complete', defs={'XV_STUB': 1}, unwind=5, unwindset=['kfq_dtor.0:5'], solver=['--sat-solver', 'cadical'], note='delete_remaining_items = contract stub'),
+  ] + [dict(id='dtor_k%d' % K, entry='h_dtor', cls='shape-complete', tiers=QT if K <= 3 else TT, defs={'KMAX': K, 'KLO': K, 'XV_STUB': 1}, unwind=max(K, 4) + 1, unwindset=['kfq_dtor.0:5'],
+             solver=['--sat-solver', 'cadical'], note='k = %d; delete_remaining_items = contract stub' % K) for K in (1, 2, 3, 4)] + [
+    dict(id='committed_int', entry='h_committed_int', mode='INT', cls='shape-complete', unwind=5, flags=['--object-bits', '10'],
+         note='k in 1..3; environment = transitive closure of the other threads\' moves (rely in assumptions)'),
+    dict(id='push_int', entry='h_push_int', mode='INT', cls='shape-complete', defs={'KMAX': 2, 'XV_STUB': 2}, unwind=5, flags=['--object-bits', '10'], note='retry loop cut, arbitrary environment, callees = recording stubs'),
+    dict(id='pop_int', entry='h_pop_int', mode='INT', cls='shape-complete', defs={'KMAX': 2, 'XV_STUB': 2}, unwind=5, flags=['--object-bits', '10'], note='retry loop cut, arbitrary environment, callees = recording stubs'),
+    dict(id='advance_head_int', entry='h_advance_head_int', mode='INT', cls='shape-complete', defs={'KMAX': 2}, unwind=5, flags=['--object-bits', '10'], note='arbitrary environment, real text'),
+    dict(id='advance_tail_int', entry='h_advance_tail_int', mode='INT', cls='shape-complete', defs={'KMAX': 2}, unwind=5, flags=['--object-bits', '10'], note='arbitrary environment, real text'),
   ],
   obligations={
     'kfq.find_index.covers': dict(deciding=True, text='for every random start the probes of find_index are pairwise distinct slots 0..k-1 of the segment, and all k are probed before false is returned'),
@@ -96,6 +103,13 @@ UNIT = dict(
     'kfq.committed.seq': dict(deciding=False, text='[SEQ] contract of committed used by push: slot holds the value, segment not marked deleted => true, head_ mark +1 iff the segment is the head segment, nothing else changes'),
     'kfq.advance_tail.seq': dict(deciding=True, text='[SEQ] advance_tail moves tail_ by exactly one segment: to the existing successor, or to one freshly allocated empty segment linked behind the old tail; nothing else changes'),
     'kfq.advance_head.seq': dict(deciding=True, text='[SEQ] advance_head on an empty head segment: no successor => nothing changes; otherwise tail_ is moved on first if it pointed to the head segment, the segment is marked deleted, head_ moves by one segment, the segment is retired once, the guard is reset'),
+    'kfq.push.commit': dict(deciding=True, text='[INT] committed (hence push) returns true only if a consumer took the value or the item is in its slot in a segment head_ has not left and no head advance that missed it can still succeed'),
+    'kfq.committed.withdrawn': dict(deciding=True, text='[INT] committed returns false only after its own CAS removed the item (never when a consumer took it)'),
+    'kfq.push.validate': dict(deciding=True, text='[INT] push returns only after a slot CAS that expected the word find_index read in the guarded tail segment, after re-reading an unchanged tail_, and committed(segment, new word, idx) agreed; ownership is released once'),
+    'kfq.pop.validate': dict(deciding=True, text='[INT] do_pop: slot CAS expects the word find_index read in the guarded head segment after re-reading an unchanged head_; tail_ is moved on first when head_ and tail_ point to the same segment; empty needs no match, same segment and unchanged tail_'),
+    'kfq.advance_head.retire': dict(deciding=True, text='[INT] advance_head writes nothing unless head_ equals the guard; marks the segment deleted before the head CAS; CAS from the guard word to (successor, mark+1); retires the segment and resets the guard iff that CAS succeeded'),
+    'kfq.advance_tail.links': dict(deciding=True, text='[INT] advance_tail does nothing unless tail_ equals its argument; a fresh segment is linked by a CAS on next from the null word read and then never released, or released exactly once; tail_ is only CASed from the argument to the successor'),
+    'kfq.sync.orders': dict(deciding=True, text='sync preconditions: push slot CAS release, pop slot CAS acquire, guard acquires of tail_/head_ and the tail_ load of do_pop acquire, head_ load of committed acquire, next loads and head_/tail_/next CAS of advance_head/advance_tail acquire resp. release-or-stronger'),
     'kfq.retire.once_empty': dict(deciding=True, text='a segment is retired exactly once, after it was marked deleted and unlinked from head_, and it holds no value; release_segment only gets live, empty segments'),
     'kfq.advance_head.deleted_first': dict(deciding=True, text='whenever head_ leaves a segment that segment has already been marked deleted'),
     'kfq.advance.one_segment': dict(deciding=True, text='head_ and tail_ are only changed by CAS from the word read to the successor of that segment (head_ also: same segment, mark+1)'),
@@ -105,6 +119,6 @@ UNIT = dict(
     'kfq.dtor.segments_released': dict(deciding=True, text='the destructor releases every segment reachable from head_ exactly once, after emptying it'),
   },
   canaries=['find_index.found', 'find_index.found_last', 'find_index.none', 'push.allocated', 'push.helped_tail', 'push.bumped_head', 'push.plain', 'push.null', 'pop.empty', 'pop.not_the_oldest',
-            'pop.advanced_head', 'pop.advanced_tail', 'pop.allocated', 'committed_seq.at_head', 'committed_seq.behind_tail', 'advance_tail_seq.helped', 'advance_tail_seq.allocated', 'advance_head_seq.no_successor', 'advance_head_seq.moved_tail_too', 'advance_head_seq.plain', 'ctor.reached', 'dri.tracked', 'dri.not_stored', 'dtor.tracked', 'dtor.not_stored', 'dtor.three_segments'],
+            'pop.advanced_head', 'pop.advanced_tail', 'pop.allocated', 'committed_seq.at_head', 'committed_seq.behind_tail', 'advance_tail_seq.helped', 'advance_tail_seq.allocated', 'advance_head_seq.no_successor', 'advance_head_seq.moved_tail_too', 'advance_head_seq.plain', 'committed.taken', 'committed.at_head', 'committed.ahead', 'committed.deleted_but_head', 'committed.withdrawn', 'push_int.returned', 'pop_int.moved_tail', 'pop_int.true', 'pop_int.empty', 'advance_head_int.retired', 'advance_head_int.lost_race', 'advance_head_int.nothing', 'advance_head_int.moved_tail', 'advance_tail_int.linked', 'advance_tail_int.released_fresh', 'advance_tail_int.helped', 'advance_tail_int.nothing', 'ctor.reached', 'dri.tracked', 'dri.not_stored', 'dtor.tracked', 'dtor.not_stored', 'dtor.three_segments'],
   loop_obligation={'PUSH': 'kfq.push.validate', 'POP': 'kfq.pop.validate'},
 )
